@@ -177,7 +177,10 @@ def run(ck):
     PS = stores.globals['PandasStore']
     qartod = it.module('ioos_qc.qartod').globals
     filters = [None, ['temp'], ['gross_range_test'], [qartod['spike_test']], ['9 lives-x', 'valid_range_test'], ['nothing-matches'], []]
-    for fe in ('numpy', 'pandas'):
+    # a platform at the surface / equator / prime meridian: axis (and data) values that are all exactly zero are still values
+    zconc = dict(conc, z=[0] * 5, lat=[0] * 5, lon=[0] * 5, temp=[0] * 5)
+    ztable = Table(5, streams=streams, concrete=zconc)
+    for fe, table, tname in [(f, tb, tn) for f in ('numpy', 'pandas') for tb, tn in ((table, ''), (ztable, '[all-zero axes]'))]:
         run0 = run_frontend(r, fe, table, src)
         if run0.error is not None:
             ck.violate('C19.save', f'{fe}:stream-raises', f'{fe}: the stream raises {run0.error.exc}')
@@ -185,7 +188,9 @@ def run(ck):
         for wd, wa, inc, exc, agg in itertools.product((False, True), (True, False), filters, filters, (False, True)):
             if inc is not None and exc is not None and ck.tier != 'thorough' and (inc != ['temp'] or exc != ['gross_range_test']):
                 continue
-            label = f'{fe}: save(write_data={wd}, write_axes={wa}, include={show_filter(inc)}, exclude={show_filter(exc)}, aggregate={agg})'
+            if tname and (inc is not None or exc is not None):
+                continue
+            label = f'{fe}{tname}: save(write_data={wd}, write_axes={wa}, include={show_filter(inc)}, exclude={show_filter(exc)}, aggregate={agg})'
             ck.count(1, distinct=label)
             try:
                 ps = it.instantiate(PS, [list(run0.context_results)], {}, None)
@@ -201,7 +206,7 @@ def run(ck):
         try:
             ps = it.instantiate(PS, [list(run0.context_results)], {}, None)
             df = it.call(it.getattr(ps, 'save', None), [], {}, None)
-            check_frame(ck, f'{fe}: save() with default arguments', df, ps, table, False, True, None, None, False)
+            check_frame(ck, f'{fe}{tname}: save() with default arguments', df, ps, table, False, True, None, None, False)
         except AbsRaise as e:
             ck.violate('C19.save', f'PandasStore.save:defaults-raise-{e.exc.tname}', f'{fe}: save() raises {e.exc}')
     ck.floor('C19.columns', 40)
